@@ -78,6 +78,7 @@ type Stats struct {
 	PeakDepth   int                        `json:"peak_depth"`
 	SchedPrints map[string]struct{}        `json:"-"`
 	StateHashes map[string]struct{}        `json:"-"`
+	LogDigest   uint64                     `json:"log_digest"` // rolling hash of every execution's event-log hash, in order
 	Redo        int                        `json:"determinism_reexecutions"`
 	RedoBad     int                        `json:"determinism_mismatches"`
 }
@@ -95,6 +96,7 @@ func (c *Ctx) Account(ex *Exec) {
 	s := c.Stats
 	s.Execs++
 	s.Ticks += ex.Ticks
+	s.LogDigest = simrt.Mix(s.LogDigest ^ ex.LogHash ^ uint64(ex.Ticks))
 	r := ex.Run
 	if r == nil {
 		return
